@@ -99,17 +99,23 @@ Item(k, p, m) == [k |-> k, p |-> p, m |-> m]
 ClientAlphabetOver(P) ==    \* sent TO a client
   {Item(kk, pp, "") : kk \in {"challenge", "success"}, pp \in P}
   \cup {Item(kk, <<>>, "") : kk \in {"failure", "foreign", "other", "chardata", "end", "eof"}}
+  \cup {Item("xsuccess", <<>>, ""), Item("xchallenge", <<1, 1, 1, 1>>, "")}
 ClientAlphabet == ClientAlphabetOver(Payloads)
 ServerAlphabetFor(names) == \* sent TO a server; names: mechanism attribute values tried
   {Item("auth", pp, mm) : pp \in Payloads, mm \in names}
   \cup {Item("response", pp, "") : pp \in Payloads}
   \cup {Item(kk, <<>>, "") : kk \in {"abort", "failure", "foreign", "other", "chardata", "end", "eof"}}
+  \cup {Item("xauth", <<1, 1, 1, 1>>, mm) : mm \in names \ {""}} \cup {Item("xresponse", <<1, 1, 1, 1>>, "")}
 (* every answer of a server / every request of a client with every shape; a <failure/>    *)
 (* normally holds a condition element (p = <<>>), here also text of every shape            *)
 ShapedClient == {Item(kk, pp, "") : kk \in {"challenge", "success"}, pp \in Shapes}
                 \cup {Item("failure", pp, "") : pp \in {q \in Shapes : Len(q) <= 2}}
 ShapedServer == {Item("auth", pp, "M1") : pp \in Shapes} \cup {Item("response", pp, "") : pp \in Shapes}
 (*  foreign  = an element outside the SASL namespace                                *)
+(*  xsuccess, xchallenge, xauth, xresponse = elements outside the SASL namespace    *)
+(*             that are NAMED like SASL elements (another SASL profile's namespace, *)
+(*             the stream's content namespace inherited, ...): foreign elements     *)
+(*             like any other - no rule below knows these kinds                     *)
 (*  other    = a SASL-namespace element with another name (client side: <auth/>,    *)
 (*             server side: <challenge/>)                                           *)
 (*  chardata = character data in place of an element                                *)
